@@ -341,3 +341,112 @@ class Graph_eq:
     properties = ["C16"]
     ensures = {"decides": lambda self, other, result: result == (
         self._nodes == other._nodes and self._edges == other._edges and self._ext == other._ext)}
+
+
+@contract("fggs.fggs.Graph.new_edge")
+class Graph_new_edge:
+    sig = {"self": "Graph", "name": "str", "nodes": "seq[Node]", "is_terminal": "bool",
+           "is_nonterminal": "bool", "id": "Id"}
+    properties = ["C16"]
+    requires = lambda self, name, nodes, is_terminal, is_nonterminal, id: wf_graph(self) and nodes_alive(self)
+    ensures = {
+        "wf": lambda self, result: wf_graph(self),
+        "edge": lambda self, name, nodes, is_terminal, id, result: (
+            result.label.name == name and result.label.is_terminal == is_terminal
+            and result.label.node_labels == [n.label for n in nodes] and result.nodes == nodes
+            and implies(id is not None, result.id == id)
+            and old(result.id not in self._edges)),
+        "view": lambda self, nodes, result: (
+            self._edges == put(old(self._edges), result.id, result)
+            and self._edge_labels == put(old(self._edge_labels), result.label.name, result.label)
+            and self._ext == old(self._ext)
+            and nodes_added(self, nodes, len(nodes))),
+    }
+    raises = {
+        "ValueError": lambda self, name, nodes, is_terminal, is_nonterminal, id: (
+            is_terminal == is_nonterminal
+            or (not (id is not None and not is_str_id(id))
+                and ((is_str_id(id) and id in self._edges)
+                     or (name in self._edge_labels
+                         and (self._edge_labels[name].is_terminal != is_terminal
+                              or self._edge_labels[name].node_labels != [n.label for n in nodes]))
+                     or nodes_conflict(self, nodes)))),
+        "TypeError": lambda self, name, nodes, is_terminal, is_nonterminal, id: (
+            is_terminal != is_nonterminal and id is not None and not is_str_id(id)),
+    }
+    on_raise = {"*": lambda self: same_graph_state(self)}
+
+
+@contract("fggs.fggs.HRGRule.__post_init__")
+class HRGRule_post_init:
+    sig = {"self": "HRGRule"}
+    properties = ["C16"]
+    ensures = {"typed": lambda self: (not self.lhs.is_terminal
+                                      and self.lhs.node_labels == [n.label for n in self.rhs._ext]
+                                      and same_graph_state(self.rhs))}
+    raises = {"Exception": lambda self: (self.lhs.is_terminal
+                                         or self.lhs.node_labels != [n.label for n in self.rhs._ext])}
+    on_raise = {"Exception": lambda self: same_graph_state(self.rhs)}
+
+
+# ---- interpretation (domains / factors bound to labels) ----------------------------------------------
+def same_interp_state(t):
+    return (t._node_labels == old(t._node_labels) and t._edge_labels == old(t._edge_labels)
+            and t.domains == old(t.domains) and t.factors == old(t.factors))
+
+
+@contract("fggs.fggs.InterpretationMixin.add_domain")
+class add_domain:
+    sig = {"self": "Interp", "nl": "NodeLabel", "dom": "Domain"}
+    properties = ["C16", "C20"]
+    requires = lambda self, nl, dom: label_tables_keyed_by_name(self)
+    ensures = {"view": lambda self, nl, dom: (
+        self.domains == put(old(self.domains), nl.name, dom)
+        and self._node_labels == put(old(self._node_labels), nl.name, nl)
+        and self._edge_labels == old(self._edge_labels) and self.factors == old(self.factors))}
+    raises = {"ValueError": lambda self, nl, dom: nl.name in self.domains}
+    on_raise = {"ValueError": lambda self, nl, dom: same_interp_state(self)}
+
+
+def factor_fits(t, el, fac):
+    return (fac.arity == el.arity
+            and forall(lambda j: implies(0 <= j and j < len(el.node_labels),
+                                         el.node_labels[j].name in t.domains
+                                         and t.domains[el.node_labels[j].name] == fac.domains[j]), "int"))
+
+
+@contract("fggs.fggs.InterpretationMixin.add_factor")
+class add_factor:
+    sig = {"self": "Interp", "el": "EdgeLabel", "fac": "Factor"}
+    properties = ["C16", "C20"]
+    requires = lambda self, el, fac: label_tables_keyed_by_name(self)
+    loops = {0: lambda self, el, fac, _i: (
+        self.domains == old(self.domains) and self.factors == old(self.factors)
+        and self._node_labels == old(self._node_labels)
+        and self._edge_labels == old(self._edge_labels)
+        and forall(lambda j: implies(0 <= j and j < _i,
+                                     el.node_labels[j].name in self.domains
+                                     and self.domains[el.node_labels[j].name] == fac.domains[j]), "int"))}
+    ensures = {"view": lambda self, el, fac: (
+        self.factors == put(old(self.factors), el.name, fac)
+        and self._edge_labels == put(old(self._edge_labels), el.name, el)
+        and self.domains == old(self.domains) and self._node_labels == old(self._node_labels)
+        and factor_fits(self, el, fac))}
+    # binding succeeds only if the label is a terminal, denotes one label, is not already bound,
+    # and arity and every domain match
+    raises = {"ValueError": lambda self, el, fac: (
+        el.is_nonterminal
+        or (el.name in self._edge_labels and self._edge_labels[el.name] != el)
+        or el.name in self.factors
+        or not factor_fits(self, el, fac))}
+    on_raise = {"ValueError": lambda self, el, fac: same_interp_state(self)}
+
+
+@contract("fggs.fggs.InterpretationMixin.shape")
+class shape_of_nodes:
+    sig = {"self": "Interp", "x": "seq[Node]"}
+    properties = ["C20"]
+    ensures = {"value": lambda self, x, result: (
+        result == [self.domains[n.label.name].size() for n in x] and same_interp_state(self))}
+    raises = {"KeyError": lambda self, x: exists(
+        lambda j: 0 <= j and j < len(x) and x[j].label.name not in self.domains, "int")}
